@@ -34,6 +34,62 @@ type raceReport struct {
 	Raw   string
 }
 
+var raceInitFrameRe = regexp.MustCompile(`(^|[./])init(\.\d+)?\(\)$`)
+var raceByGoroutineRe = regexp.MustCompile(`by goroutine (\d+):`)
+
+// raceFrames the function frames of one paragraph of a race report (header and file lines left out)
+func raceFrames(para string) (header string, frames []string) {
+	for _, l := range strings.Split(para, "\n") {
+		t := strings.TrimSpace(l)
+		switch {
+		case t == "" || t == "WARNING: DATA RACE":
+		case strings.HasSuffix(t, ":") && !strings.HasSuffix(t, "()"):
+			header = t
+		case strings.HasPrefix(t, "/"):
+		default:
+			frames = append(frames, t)
+		}
+	}
+	return
+}
+
+// raceContradictsMemoryModel: one access was made by the main goroutine while it ran a package's init function, the
+// other by a goroutine that was started from package main's ordinary (non-init) code. Every init function has
+// finished before main.main starts and a go statement happens before the goroutine it starts, so the two
+// accesses are ordered: such a report cannot be a data race of the program. It is counted and shown, not judged.
+func raceContradictsMemoryModel(block string) bool {
+	paras := strings.Split(strings.TrimSpace(block), "\n\n")
+	if len(paras) < 3 {
+		return false
+	}
+	initSide, other := -1, ""
+	for pi := 0; pi < 2; pi++ {
+		h, fr := raceFrames(paras[pi])
+		if len(fr) == 0 {
+			return false
+		}
+		if strings.Contains(h, "by main goroutine") && raceInitFrameRe.MatchString(fr[len(fr)-1]) {
+			initSide = pi
+		} else if m := raceByGoroutineRe.FindStringSubmatch(h); m != nil {
+			other = m[1]
+		}
+	}
+	if initSide < 0 || other == "" {
+		return false
+	}
+	for _, p := range paras[2:] {
+		h, fr := raceFrames(p)
+		if strings.HasPrefix(h, "Goroutine "+other+" ") && strings.HasSuffix(h, "created at:") && len(fr) > 0 {
+			bottom := fr[len(fr)-1]
+			return strings.HasPrefix(bottom, "main.") && !raceInitFrameRe.MatchString(bottom)
+		}
+	}
+	return false
+}
+
+// raceSetAside the reports of this process that raceContradictsMemoryModel put aside
+var raceSetAside []string
+
 // parseRaceLogs reads the race detector logs of this process (GORACE log_path=<scratch>/race)
 func parseRaceLogs(scratch string) (raw int, dedup map[string]raceReport) {
 	dedup = map[string]raceReport{}
@@ -49,6 +105,10 @@ func parseRaceLogs(scratch string) (raw int, dedup map[string]raceReport) {
 				continue
 			}
 			raw++
+			if raceContradictsMemoryModel(b) {
+				raceSetAside = append(raceSetAside, b)
+				continue
+			}
 			// the two access stacks are the first two paragraphs
 			paras := strings.Split(strings.TrimSpace(b), "\n\n")
 			var entry []string
@@ -93,7 +153,18 @@ func checkRaceLog(r *hx.Run) {
 	if os.Getenv("VERIF_RACE") == "" {
 		return
 	}
+	raceSetAside = nil
 	raw, dedup := parseRaceLogs(r.Scratch)
+	if n := len(raceSetAside); n > 0 {
+		// (see raceContradictsMemoryModel)
+		r.Add("race_reports_ordered_by_the_memory_model_not_judged", int64(n))
+		txt := raceSetAside[0]
+		if len(txt) > 3000 {
+			txt = txt[:3000]
+		}
+		r.Set("race_report_not_judged_sample", txt)
+		fmt.Printf("  race report set aside (an init-time write of the main goroutine against a goroutine started from main's own code): %d\n", n)
+	}
 	r.Add("race_reports_raw", int64(raw))
 	r.Add("race_reports_dedup", int64(len(dedup)))
 	for key, rep := range dedup {
